@@ -318,6 +318,34 @@ pub fn run_schedule(rec: &mut Rec, seed: u64, run: u64, line: &str) {
         step += 1;
         }
     }
+    // the wasm-level admin of a factory's children: a direct MsgMigrateContract by an account - the factory's owner before
+    // or after the hand-over, or anybody else - to a code whose migrate accepts anything must be refused by the chain
+    // (children are migrated through their factory only; the right follows the factory's ownership)
+    let kids: Vec<(&str, Addr)> = match c.as_str() {
+        "incentive_factory" => vec![("incentive", f.incentive.clone())],
+        "pool_factory" => vec![("pair", f.pair1.clone()), ("trio", f.trio.clone())],
+        "vault_factory" => vec![("vault", f.vault.clone())],
+        _ => vec![],
+    };
+    if !kids.is_empty() {
+        let code = f.w.app.store_code(crate::hookrecv::any_migrate_contract());
+        for (kind, child) in kids {
+            for role in ["user", "owner", "newowner"] {
+                let sender = sender_of(&f, &c, role);
+                let dpre = f.w.digest();
+                let app = &mut f.w.app;
+                let rr = std::panic::catch_unwind(std::panic::AssertUnwindSafe(|| {
+                    cw_multi_test::Executor::migrate_contract(app, sender.clone(), child.clone(), &cosmwasm_std::Empty {}, code)
+                }));
+                let rs = match rr { Ok(Ok(x)) => Res::Ok(x), Ok(Err(e)) => Res::Rejected(format!("{:#}", e)), Err(_) => Res::Aborted("panic".into()) };
+                let dpost = f.w.digest();
+                rec.emit(json!({"ev": "adminmigrate", "run": run, "step": step, "actor": role,
+                    "args": {"c": c, "child": kind, "role": role, "phase": phase},
+                    "res": rs.tag(), "err": jerr(&rs.err()), "dpre": dpre, "dpost": dpost}));
+                step += 1;
+            }
+        }
+    }
 }
 
 pub fn main(seed: u64, first: u64, runs: u64, out: &str, sched: Option<&String>) {
